@@ -348,6 +348,11 @@ def handleHousekeeping (s : Sys F) (now : Nat) : Sys F × Out :=
 
 /-! ## Events -/
 
+/-- The four verdict fields of the link at index `idx` are overwritten, nothing else (no link: nothing). -/
+def stampLink (ls : List (FLink F)) (idx : Nat) (weak ld ccb : Bool) (cct : Nat) : List (FLink F) :=
+  ls.mapIdx fun j l =>
+    if j = idx then { l with weak := weak, lossDegraded := ld, ccBackingOff := ccb, ccTarget := cct } else l
+
 inductive Ev where
   | client (now : Nat) (pkt : Bytes)
   | uplink (now : Nat) (connId : Nat) (data : Bytes)
@@ -358,6 +363,12 @@ inductive Ev where
   | failNext (connId : Nat)
   /-- the next socket re-creation of the link with this conn id fails (binder error) -/
   | failBind (connId : Nat)
+  /-- the stamping loop of the housekeeping arm (`src/sender/mod.rs`, after `handle_housekeeping`): the
+  verdicts of the weak-link classifier and the per-link CC controller for the link at index `idx` are
+  written onto the connection (`conn.weak`, `conn.loss_degraded`, `conn.cc_backing_off`,
+  `conn.cc_target_bps`).  The verdicts are INPUTS of the event: the components that compute them are
+  modelled separately (`Model/Classifier.lean`, `Model/LinkCc.lean`). -/
+  | stamp (idx : Nat) (weak lossDegraded ccBackingOff : Bool) (ccTargetBps : Nat)
 
 def step (s : Sys F) : Ev → Sys F × Out
   | .client now pkt => handleSrtPacket s pkt now
@@ -368,5 +379,6 @@ def step (s : Sys F) : Ev → Sys F × Out
   | .crit d => ({ s with critDeadline := max s.critDeadline d }, {})
   | .failNext cid => ({ s with failNext := cid :: s.failNext }, {})
   | .failBind cid => ({ s with failBind := cid :: s.failBind }, {})
+  | .stamp idx weak ld ccb cct => ({ s with links := stampLink s.links idx weak ld ccb cct }, {})
 
 end Srtla.Sys
